@@ -4,15 +4,17 @@ import sys, os, shutil, json
 pid, n = sys.argv[1], sys.argv[2]
 detected_by = sys.argv[3]           # e.g. "C09:parse_soundness(quick)"
 needs = sys.argv[4]
-src = f"/tmp/wt/{pid}/seeded_out"
+import os as _os
+src = _os.environ.get("SEED_SRC", f"/tmp/wt/{pid}/seeded_out")
+srcn = _os.environ.get("SEED_SRC_N", n)
 dst = f"/verif/seeded/{pid}-v{n}"
 os.makedirs(dst, exist_ok=True)
-shutil.copy(f"{src}/patch{n}.diff", f"{dst}/patch.diff")
-shutil.copy(f"{src}/demo{n}.rs", f"{dst}/demo.rs")
-shutil.copy(f"{src}/notes{n}.md", f"{dst}/notes.md")
+shutil.copy(f"{src}/patch{srcn}.diff", f"{dst}/patch.diff")
+shutil.copy(f"{src}/demo{srcn}.rs", f"{dst}/demo.rs")
+shutil.copy(f"{src}/notes{srcn}.md", f"{dst}/notes.md")
 meta = {
     "breaks_property": pid,
-    "origin": "independent sub-agent given only the property text and a scratch worktree (no access to /verif)",
+    "origin": _os.environ.get("SEED_ORIGIN", "independent sub-agent given only the property text and a scratch worktree (no access to /verif)"),
     "needs_to_manifest": needs,
     "confirmed": {
         "pinned_tests_with_patch": "pass (cargo test --workspace --offline in /repo with the patch applied)",
